@@ -79,6 +79,11 @@ def instances(tier, seed):
                         g = fam.G_FUN(N)
                     add(kind='sufficiency', spec=fam.with_horizon(s, h), cfg=Cfg(method, N=N, M=M, intg=intg or 'rk', grid=g, degree=4, scheme='radau'))
                     n += 1
+    # step polynomials of degree < 4 (expl_euler; collocation of degree 1..3): accepted outcome = rejection, or a sufficient certificate
+    s = models()[0]
+    for method, intg, degree in (('MS', 'expl_euler', 4), ('SS', 'expl_euler', 4), ('DC', None, 1), ('DC', None, 2), ('DC', None, 3)):
+        for g in (fam.G_UNI, fam.G_GEO_LOC):
+            add(kind='sufficiency', spec=fam.with_horizon(s, hz[0]), cfg=Cfg(method, N=2, M=2 if method != 'DC' else 1, intg=intg or 'rk', grid=g, degree=degree, scheme='radau'), reject_ok=True)
     # rejection of bodies without a certificate
     for method in ('MS', 'DC'):
         s = Spec(nx=1, nu=1, ode=[U(0)], note='non-polynomial inf body')
@@ -119,7 +124,14 @@ def run(item):
                 body = b.mx(plain(c.lhs)) - b.mx(plain(c.rhs))
                 outs.append(b.stage.sample(body, grid='integrator', refine=REFINE)[1])
         return outs
-    I = Inst(spec, cfg, seed=item.get('seed', 0), extra_outputs=extra)
+    try:
+        I = Inst(spec, cfg, seed=item.get('seed', 0), extra_outputs=extra)
+    except RockitRaised as e:
+        if item.get('reject_ok'):
+            # step polynomials of a degree rockit has no Bernstein conversion for: "problems for which no such guarantee can be produced are rejected"
+            return {'stats': {}, 'obligations': 1, 'discharged': 1, 'nontrivial': ['rejected'], 'rejected': str(e)[:200], 'shape': 'reject-or-sufficient %s' % cfg.tag(),
+                    'sample': {'kind': 'reject-or-sufficient', 'cfg': cfg.tag(), 'raised': str(e)[:200]}}
+        raise
     z3 = I.z3
     trz = I.traj('z')
     atoms = I.atoms('z')
